@@ -1530,7 +1530,8 @@ func (p *Parser) parseHaving(stmt *SelectStatement) error {
 		}
 
 		tok := p.lexer.NextToken()
-		if tok.Type == TokenLIMIT || tok.Type == TokenEOF || tok.Type == TokenWITH {
+		// HAVING ends at the next clause keyword: WITH, ORDER BY, LIMIT (same boundaries as GROUP BY)
+		if tok.Type == TokenLIMIT || tok.Type == TokenEOF || tok.Type == TokenWITH || tok.Type == TokenOrder {
 			break
 		}
 
